@@ -108,14 +108,15 @@ func (d *Downstream) Close(ctx context.Context) (err error) {
 }
 
 func (d *Downstream) closeWithError(ctx context.Context, cause error) (err error) {
-	defer d.cancel()
 	if d.isClosed() {
 		return nil
 	}
 	beforeStatus := d.state.Swap(streamStatusDraining)
 	if beforeStatus == streamStatusDraining {
+		// the close under way ends the stream (and reports it closed) when it is done
 		return errors.New("already draining")
 	}
+	defer d.cancel()
 
 	// the stream is closed from here on (see the deferred cancel), whatever becomes of the close
 	// request, so the closed event is reported on every path
